@@ -61,6 +61,11 @@ CHECKS["C17"] = dict(engine="vh-wire", cat="exploration", ref="DESIGN.md §5 C17
    text="Valid transactions (8 action kinds), sequencer blocks, filtered blocks, Celestia metadata and rollup-data entries and brotli blobs are built with the crate's own builders and mutated at every nesting level (field deletion / duplication / reordering, varints to boundary values and +-1, corrupted length prefixes, 32-byte elements appended or removed, byte flips, truncation at every offset, splices, random bytes; blobs also re-compressed after mutation); every decoder entry point runs under a panic monitor, accepted values must re-encode to the same bytes and their derived artefacts must verify again.",
    note="the service wrappers (CheckTx, conductor blob fetch) are exercised by the ChainSim CheckTx path and the C09 pipeline with junk blobs; Miri is not used here (ed25519 and brotli are too slow under the interpreter for a useful slice)")
 
+CHECKS["C11"] = dict(engine="relayer-crash", cat="fault_enumeration", ref="DESIGN.md §5 C11",
+   technique="runtime monitoring with fault injection: the real BlobSubmitter, submission-state file and CelestiaClient run against a scripted fake Celestia app (tonic on loopback, virtual time); the process is stopped at enumerated RPC arrivals / replies and future-poll indices and restarted from the state file; offline oracle over the recorded history of included BlobTxs and state-file observations",
+   text="Per base scenario (4-9 heights, paced or burst block arrival, big blocks, per-broadcast fates: fast / slow inclusion, eviction, CheckTx codes 11/13/19/32 with sequence-number enforcement, gRPC errors and withheld replies with the tx processed or not, failing GetTx polls) a baseline run sizes the crash space; then one run per RPC event of the first session (arrival and reply separately) and per sampled poll index of the submitter future (every suspension point, including between temp-file write and rename), with a second stop inside recovery, downtimes that age a prepared state past its confirmation window and truncated temp files. The oracle checks after every inclusion that confirmed heights are gap-free, at every observation that the state file parses and only records covered heights, and at every restart that the feed resumes without skipping.",
+   note="a stop is the drop of the submitter future at a suspension point (blocking file ops already issued complete); the sequencer reader / BlockStream is replaced by the harness seeding from last_completed_sequencer_height()+1 as Relayer::run does; rename atomicity is assumed; power loss (no fsync) is out of scope; thorough covers every RPC event of the first session, polls are sampled")
+
 def main():
     hooks = subprocess.run(["git", "-C", "/repo", "log", "--format=%h", "--grep=^verif hooks:"], capture_output=True, text=True).stdout.split()
     m = {
@@ -79,6 +84,7 @@ def main():
        {"name": "mempool-walk", "path": "harness/seq/mempool.rs", "serves_properties": ["C13"], "kind_free_text": "in-crate test-only child module of astria_sequencer::mempool (feature verif)"},
        {"name": "composer-bundles", "path": "harness/composer/executor.rs", "serves_properties": ["C16"], "kind_free_text": "in-crate test-only child module of astria_composer::executor (feature verif)"},
        {"name": "relayer-batching", "path": "harness/relayer/write.rs", "serves_properties": ["C12"], "kind_free_text": "in-crate test-only child module of astria_sequencer_relayer::relayer::write (feature verif)"},
+       {"name": "relayer-crash", "path": "harness/relayer/crash.rs", "serves_properties": ["C11"], "kind_free_text": "in-crate test-only module (child of the relayer-batching harness module) driving BlobSubmitter with crash injection (feature verif)"},
        {"name": "conductor-executor", "path": "harness/conductor/executor.rs", "serves_properties": ["C10"], "kind_free_text": "in-crate test-only child module of astria_conductor::executor (feature verif)"},
        {"name": "vh-wire", "path": "harness/ext/vh-wire", "serves_properties": ["C17"], "kind_free_text": "external harness binary on the public astria-core decoders"},
        {"name": "chainsim", "path": "harness/seq/app", "serves_properties": ["C01","C02","C03","C04","C05","C06","C07","C14","C15","C18"], "kind_free_text": "in-crate multi-node ABCI driver inside astria_sequencer::app (feature verif) + offline Python oracles"},
